@@ -80,6 +80,11 @@ def run(desc, ctx):
         raise Violation("verdict:no-model-for-satisfiable", {"status": status})
     if not ref_sat and has_model:
         raise Violation("verdict:model-for-unsatisfiable", {"status": status})
+    if has_model and isinstance(res.solution, dict):
+        # "answers with a model whenever one exists": what it answers with has to be a model (C01 checks this in depth)
+        bad = sat_ref.model_ok(clauses, res.solution)
+        if bad is not None or any(res.solution.get(abs(a)) != (a > 0) for a in ass):
+            raise Violation("verdict:answer-is-not-a-model", {"status": status, "clause": None if bad is None else clauses[bad]})
 
     # (3) MAX_ITER only when a budget is exhausted
     if status == "MAX_ITER":
@@ -114,8 +119,11 @@ def run(desc, ctx):
 def strat(tier):
     from hypothesis import strategies as st
 
-    return st.one_of(cnf.small_cnf(), cnf.threshold_cnf(32 if tier == "quick" else 40), cnf.threshold_cnf(24), cnf.structured_cnf())
+    return st.one_of(cnf.small_cnf(), cnf.threshold_cnf(32 if tier == "quick" else 40), cnf.threshold_cnf(24), cnf.structured_cnf(), cnf.gadget_cnf(), cnf.gadget_cnf())
 
 
-SUBS = [Sub("verdicts", run, strategy=strat, quick=700, thorough=6000, workers_quick=4, case_timeout=300)]
+SUBS = [
+    Sub("verdicts", run, strategy=strat, quick=700, thorough=6000, workers_quick=4, case_timeout=300),
+    Sub("gadget", run, strategy=lambda tier: cnf.gadget_cnf(), quick=3000, thorough=20000, workers_quick=4, case_timeout=300),
+]
 AMPLIFY = [("verdicts", 8000, 4)]  # thorough-tier coverage-guided amplifier (vf/fuzz.py)
